@@ -31,7 +31,7 @@ AbsArg(j) == CASE j.k = "seq" -> [k |-> "seq", items |-> [i \in DOMAIN j.items |
 AbsDecl(j) == CASE j.k = "one" -> [k |-> "one", d |-> DimFromSeq(j.d)]
                 [] j.k = "each" -> [k |-> "each", ds |-> [i \in DOMAIN j.ds |-> DimFromSeq(j.ds[i])]]
                 [] OTHER -> [k |-> "none"]
-AbsCall(c) == [n |-> c.n, npos |-> 0,
+AbsCall(c) == [n |-> c.n, style |-> "kw",
                args  |-> [i \in 1..c.n |-> AbsArg(c.args[i])],
                decls |-> [i \in 1..c.n |-> AbsDecl(c.decls[i])],
                r |-> [rk |-> c.r.rk, res |-> AbsArg(c.r.res), rd |-> AbsDecl(c.r.rd)]]
